@@ -79,6 +79,11 @@ def oracle(chk, p, r, m):
                             priv = lambda st, k: st["outs"][0].startswith(f"build/objects/{k[0]}/{k[1]}/")
                             if priv(s1, k1) or priv(s2, k2):
                                 continue          # non-shareable rules are private by definition
+                            if s1["outs"][0].rsplit(".", 1)[-1] != s2["outs"][0].rsplit(".", 1)[-1]:
+                                # the two rules name different object extensions (`out:`): the object file name the user asked for
+                                # differs; `C07.same_object_iff` is stated for one `out` extension (DESIGN §9.3)
+                                chk.count("skipped:different-out-extension")
+                                continue
                             chk.fail_oracle("share:identical-not-shared", f"{src}: {k1} -> {s1['outs']}, {k2} -> {s2['outs']} although rule and order-only deps are identical",
                                             {"project": p, "source": src})
                             return
